@@ -486,6 +486,9 @@ class Specs:
         if name == 'trace_len':
             n = st.heap.maps.get('$trlen')
             return vint(n if n is not None else z3.Int('h:$trlen'))
+        if name == 'trace_resr':
+            i = ex.ev1(a[0], st, fr).t
+            return V(T_ANY, st.heap.get('$tr.resr', I, Ref)[i])
         if name in ('trace_kind', 'trace_fn', 'trace_recv', 'trace_ref', 'trace_real', 'trace_bool', 'trace_resb',
                     'trace_resx'):
             i = ex.ev1(a[0], st, fr).t
